@@ -293,6 +293,13 @@ func runEntryNoPanic(e entryPoint, data []byte, exercise bool) (res any, err err
 		}
 	}()
 	res, err = e.Run(data)
+	if err != nil {
+		// an error is there to be read: producing its text is part of
+		// "returns an error" (and must neither panic nor run away)
+		stage = "formatting the error returned"
+		_ = err.Error()
+		stage = "decoding"
+	}
 	if err == nil && exercise {
 		stage = "using the successfully decoded result"
 		exerciseResult(res)
